@@ -117,7 +117,13 @@ def x_hist(ctx, case):
     fault = {}
     reentrant = {}     # (sink name, "start" | "stop") -> callbacks run once from inside that sink's method
     fallback = sink("fallback") if cfg["fallback"] else None
-    router = testtools.StreamResultRouter(fallback, do_start_stop_run=cfg["fb_ssr"])
+    if cfg.get("fb_late") and cfg["fallback"] and not cfg["fb_ssr"]:
+        # the fallback is the public attribute `fallback`: here it is assigned after construction (a handler that
+        # needs the router to exist first), which is as good as passing it in - start / stop apart, which it opted out of
+        router = testtools.StreamResultRouter()
+        router.fallback = fallback
+    else:
+        router = testtools.StreamResultRouter(fallback, do_start_stop_run=cfg["fb_ssr"])
     # model state
     prefixes, test_ids = {}, {}
     registered = ["fallback"] if (cfg["fallback"] and cfg["fb_ssr"]) else []
@@ -353,7 +359,7 @@ def run(ctx):
     for i in range(ctx.scale(40000, 2000000)):
         if ctx.out_of_time():
             break
-        cfg = {"fallback": rng.random() < 0.6, "fb_ssr": rng.random() < 0.6}
+        cfg = {"fallback": rng.random() < 0.6, "fb_ssr": rng.random() < 0.6, "fb_late": rng.random() < 0.4}
         free_p = list(segs)
         free_t = [None, "a", "b", ""]      # "" is a test id like any other; None is the rule for id-less events
         used_p = []
